@@ -90,6 +90,14 @@ def messages_of(p):
     return progs.parse_lines(raw), it
 
 
+def _has_root(t):
+    try:
+        t.root()
+        return True
+    except Exception:
+        return False
+
+
 def run_case(p):
     msgs, it = messages_of(p)
     n = len(msgs)
@@ -132,6 +140,27 @@ def run_case(p):
             viol.append(("parse_stream-task-multiset", {"got": len(ids), "want": len(uu)}))
         if not all(t.is_complete() for t in tasks):
             viol.append(("parse_stream-full-set-incomplete", {}))
+    # every subset (in emission order) for small sets: several tasks may be incomplete at once
+    if n <= 7:
+        for mask in range(1, (1 << n) - 1):
+            sub = [m for i, m in enumerate(msgs) if mask >> i & 1]
+            if len(sub) >= n - 1:
+                continue  # covered below in two orders
+            execs += 1
+            try:
+                tasks = list(Parser.parse_stream(sub))
+            except Exception as e:
+                viol.append(("parse_stream-raised", {"subset": [i for i in range(n) if mask >> i & 1], "error": repr(e)[:200]}))
+                break
+            present = {}
+            for m in sub:
+                present[m["task_uuid"]] = present.get(m["task_uuid"], 0) + 1
+            if sorted(t.root().task_uuid if _has_root(t) else "?" for t in tasks) != sorted(present):
+                viol.append(("parse_stream-task-multiset", {"subset": [i for i in range(n) if mask >> i & 1]}))
+                break
+            if any(t.is_complete() != (present[t.root().task_uuid] == len(uu[t.root().task_uuid])) for t in tasks):
+                viol.append(("parse_stream-completeness", {"subset": [i for i in range(n) if mask >> i & 1]}))
+                break
     for miss in range(n):
         sub = msgs[:miss] + msgs[miss + 1:]
         for order in (sub, sub[::-1]):
